@@ -1,8 +1,8 @@
 import Mkts.Proto
-import Mkts.Model.Agg
+import Mkts.Model.Uda
 /-! Driver ops for the aggregate model (C23): `aggv` (count/min/max/avg) and `gap`. -/
-namespace Mkts.Driver.Agg
-open Mkts.Proto Mkts.Float Mkts.Agg
+namespace Mkts.Driver.Uda
+open Mkts.Proto Mkts.Float Mkts.Uda
 
 def parseColType : String → Option (Option ColType)
   | "f32" => some (some .f32) | "f64" => some (some .f64) | "int" => some (some .int)
@@ -128,4 +128,4 @@ def gapOp : Op := fun args =>
 
 def ops : OpTable := [("aggv", aggvOp), ("gap", gapOp)]
 
-end Mkts.Driver.Agg
+end Mkts.Driver.Uda
